@@ -2,7 +2,7 @@
    AsStaticStr), to_string.rs (deprecated ToString), and core::fmt::Formatter::pad.  *)
 Require Export Strum.Model.Names.
 Require Import Strum.Model.FromStr.   (* ident_ok *)
-Open Scope char_scope.
+Local Open Scope char_scope.
 
 (* ---------------- core::fmt::Formatter::pad (library/core/src/fmt/mod.rs) ---------------- *)
 Inductive align := ALeft | ARight | ACenter.
